@@ -112,7 +112,7 @@ Spec == Init /\ [][Next]_vars
 
 (* ---------------- the design argument ---------------- *)
 BlocksPreserved == SameBlocks(orig, doc)
-StringsSafe     == StringsUntouched(orig, doc)
+StringsSafe     == StringsUntouched(orig, doc, ver)
 (* in the abstract universe every document is offside-consistent and stays so *)
 StaysConsistent == Mode = "mc" => Consistent(doc) /\ Consistent(part.lines)
 
